@@ -48,7 +48,7 @@ func (vc *VC) evalSpecBoolIn(sc *SpecScope, e SExpr) string {
 
 // function-level helpers: invariants/asserts (names resolved among locals)
 func (vc *VC) fnScope(st *State) *SpecScope {
-	return &SpecScope{cur: st, old: vc.entry, names: map[string]*Value{}, pkg: vc.pkg, useEnv: true, where: vc.fname}
+	return &SpecScope{cur: st, old: vc.entry, names: map[string]*Value{}, oldNames: vc.entryVals, pkg: vc.pkg, useEnv: true, where: vc.fname}
 }
 
 func (vc *VC) evalSpecBool(st *State, e SExpr) string {
@@ -250,7 +250,41 @@ func (vc *VC) specObject(sc *SpecScope, o types.Object) *Value {
 	return nil
 }
 
+// ghostLoc: the heap location of ghost field `name` of the object v (pointer or interface value).
+func (vc *VC) ghostField(sc *SpecScope, v *Value, name string) (comp string, T types.Type) {
+	if v.K != VInt || v.T == nil {
+		vc.specFail(sc, "ghost field %s of a non-object value", name)
+	}
+	T0 := v.T
+	if p, ok := under(T0).(*types.Pointer); ok {
+		T0 = p.Elem()
+	}
+	n := namedOf(T0)
+	if n == nil {
+		vc.specFail(sc, "ghost field %s on unnamed type %s", name, T0)
+	}
+	key := n.Obj().Pkg().Path() + "." + n.Obj().Name() + "." + name
+	g := vc.w.Ghosts[key]
+	if g == nil {
+		vc.specFail(sc, "undeclared ghost field %s", key)
+	}
+	gsc := &SpecScope{cur: sc.cur, pkg: vc.w.Pkgs[g.Pkg], where: sc.where}
+	if gsc.pkg == nil {
+		gsc.pkg = sc.pkg
+	}
+	GT := vc.resolveType(gsc, g.TypeName)
+	if GT == nil {
+		vc.specFail(sc, "ghost field %s: unknown type %s", key, g.TypeName)
+	}
+	return "ghost:" + key, GT
+}
+
 func (vc *VC) specField(sc *SpecScope, v *Value, name string) *Value {
+	if strings.HasPrefix(name, "$") {
+		comp, GT := vc.ghostField(sc, v, name)
+		ref := v.Term
+		return vc.loadShape(sc.cur, comp, GT, 1, func(h string) string { return sel(h, ref) })
+	}
 	if v.K == VSlice {
 		switch name {
 		case "arr":
